@@ -89,6 +89,7 @@ VALS_ANY = [0, 1, 5, 0.5, True, False, "x", "", "hi", None]
 INT_LITS = ["0", "1", "2", "3", "5", "7", "10"]
 FLOAT_LITS = ["0.5", "2.0"]
 STR_LITS = ['"x"', '""', '"hi"']
+TIME_EPS = 1e-7
 SOON = 8     # op placement: up to this many loop iterations after the previous op
 
 
@@ -1158,7 +1159,7 @@ def execute(ctx, plan):
     def do_op(op, nested=False):
         now = loop.time()
         kind = op["op"]
-        if now == last_change[0] and not nested:
+        if now <= last_change[0] + TIME_EPS and not nested:
             ctx.probe("same_instant_burst")
             if 0 < loop.steps - last_op_step[0] <= SOON:
                 ctx.probe("change_in_resub_window")
@@ -1276,7 +1277,9 @@ def execute(ctx, plan):
     def run_op():
         op = ops[idx[0]]
         idx[0] += 1
-        if loop.time() > last_change[0]:
+        # simulated time really advanced (more than the loop's timer resolution, within which due timers are
+        # batched into one iteration): the loop has been idle in between, every zero-time chain has drained
+        if loop.time() > last_change[0] + TIME_EPS:
             checkpoint()
         do_op(op)
         schedule_next()
